@@ -412,6 +412,18 @@ pub(crate) mod verif_access {
 
 #[cfg(feature = "verif_hooks")]
 impl SyncAssetTransfer {
+    pub(crate) fn verif_served(&self) -> Vec<(&'static str, Uuid, Vec<u8>)> {
+        let mut out = vec![];
+        for (name, cache) in [("mesh", &self.meshes), ("image", &self.images), ("audio", &self.audios)] {
+            if let Ok(m) = cache.read() {
+                for (k, v) in m.iter() {
+                    out.push((name, *k, v.clone()));
+                }
+            }
+        }
+        out
+    }
+
     pub(crate) fn verif_stats(&self) -> crate::verif::AssetStats {
         let len = |c: &MeshCache| c.read().map(|m| m.len()).unwrap_or(0);
         crate::verif::AssetStats {
